@@ -417,13 +417,15 @@ class SkipgramVectorizer(BaseEstimator, TransformerMixin):
         self._kept_columns = np.where(self._column_is_kept)[0]
 
         self.column_label_dictionary_ = {}
+        # Column ids were built as head * n + tail with n = len(window_sizes) - 1
+        n_encoded_tokens = len(self._window_sizes) - 1
         for i in range(self._kept_columns.shape[0]):
             raw_val = self._kept_columns[i]
             first_token = self._inverse_token_dictionary_[
-                raw_val // len(self._token_dictionary_)
+                raw_val // n_encoded_tokens
             ]
             second_token = self._inverse_token_dictionary_[
-                raw_val % len(self._token_dictionary_)
+                raw_val % n_encoded_tokens
             ]
             self.column_label_dictionary_[(first_token, second_token)] = i
 
